@@ -21,6 +21,7 @@
 #include <opm/material/fluidsystems/blackoilpvt/GasPvtMultiplexer.hpp>
 #include <opm/material/fluidsystems/blackoilpvt/OilPvtMultiplexer.hpp>
 #include <opm/material/fluidsystems/blackoilpvt/WaterPvtMultiplexer.hpp>
+#include <opm/material/fluidsystems/blackoilpvt/ConstantCompressibilityWaterPvt.hpp>
 #include <opm/material/densead/Evaluation.hpp>
 #include <opm/material/densead/Math.hpp>
 
@@ -351,6 +352,12 @@ template <class G> void range1(Sink& S, const std::string& q, G&& g, double xb, 
 }
 std::vector<double> fractions(int nt) { std::vector<double> t; for (int i = 1; i <= nt; ++i) t.push_back(double(i) / (nt + 1)); return t; }
 
+// (defined with the twin-entry-point oracles below)
+bool same(double a, double b);
+std::vector<std::pair<double, double>> dead_points(const DeadRef& D);
+std::vector<double> cc_pressures(const CCRef& c);
+void cc_closed(const CCRef& c, double p, double& invB, double& mu);
+
 // ----------------------------------------------------- live (PVTO/PVTG) ---
 template <class V> void check_live(Sink& S, const V& v, const LiveRef& L, int nt) {
     const std::string Rn = L.oil ? "Rs" : "Rv";
@@ -575,6 +582,12 @@ template <class V> void check_dead(Sink& S, const V& v, const DeadRef& D, int nt
         deriv2(S, "Bsat", [&](auto T, auto x) { return v.satInvB(T, x); }, p, D.rows[0].p);
         deriv2(S, "musat", [&](auto T, auto x) { return v.satMu(T, x); }, p, D.rows[0].p);
     }
+    // twin entry points: a dead fluid has no dissolved component, saturated == undersaturated at every pressure and any Rs/Rv argument
+    for (auto [p, R] : dead_points(D)) {
+        S.cnt("twin_entry_points", 2);
+        if (!same(v.satInvB(TEMP, p), v.invB(TEMP, p, R))) S.viol("Bsat", "twin", "saturatedInverseFormationVolumeFactor " + N(v.satInvB(TEMP, p)) + " != inverseFormationVolumeFactor " + N(v.invB(TEMP, p, R)) + at(p, R));
+        if (!same(v.satMu(TEMP, p), v.mu(TEMP, p, R))) S.viol("musat", "twin", "saturatedViscosity " + N(v.satMu(TEMP, p)) + " != viscosity " + N(v.mu(TEMP, p, R)) + at(p, R));
+    }
     const LPt &a0 = D.rows[0], &a1 = D.rows[1], &z0 = D.rows[n - 2], &z1 = D.rows[n - 1];
     const double plo = a0.p - 0.1 * (a1.p - a0.p) > 0 ? a0.p - 0.1 * (a1.p - a0.p) : 0.5 * a0.p, phi = z1.p + 0.1 * (z1.p - z0.p);
     range1(S, "B", fB, a0.p, plo, "below first p"); range1(S, "B", fB, z1.p, phi, "above last p");
@@ -608,6 +621,108 @@ template <class V> void check_cc(Sink& S, const V& v, const CCRef& c) {
         const double p = c.pref * f;
         deriv3(S, "B", [&](auto T, auto x, auto y) { return v.invB(T, x, y); }, p, 0.01, c.pref, 1.0);
         deriv3(S, "mu", [&](auto T, auto x, auto y) { return v.mu(T, x, y); }, p, 0.01, c.pref, 1.0);
+        deriv2(S, "Bsat", [&](auto T, auto x) { return v.satInvB(T, x); }, p, c.pref);
+        deriv2(S, "musat", [&](auto T, auto x) { return v.satMu(T, x); }, p, c.pref);
+    }
+    // twin entry points (no dissolved component: saturated == undersaturated at every pressure) and the closed form of the record
+    for (double p : cc_pressures(c)) {
+        double eb, em; cc_closed(c, p, eb, em);
+        const double ub = fB(p), um = fM(p), sb = v.satInvB(TEMP, p), sm = v.satMu(TEMP, p);
+        S.obs(ub); S.obs(um); S.obs(sb); S.obs(sm); S.cnt("twin_entry_points", 2); S.cnt("closedform_points", 4);
+        if (!same(sb, ub)) S.viol("Bsat", "twin", "saturatedInverseFormationVolumeFactor " + N(sb) + " != inverseFormationVolumeFactor " + N(ub) + " at p=" + N(p) + " (pref=" + N(c.pref) + ")");
+        if (!same(sm, um)) S.viol("musat", "twin", "saturatedViscosity " + N(sm) + " != viscosity " + N(um) + " at p=" + N(p) + " (pref=" + N(c.pref) + ")");
+        if (!releq(ub, eb, 1e-11)) S.viol("B", "closedform", "1/B " + gw(ub, eb) + " at p=" + N(p) + " (pref=" + N(c.pref) + ")");
+        if (!releq(um, em, 1e-11)) S.viol("mu", "closedform", "mu " + gw(um, em) + " at p=" + N(p) + " (pref=" + N(c.pref) + ")");
+        if (!releq(sb, eb, 1e-11)) S.viol("Bsat", "closedform", "saturated 1/B " + gw(sb, eb) + " at p=" + N(p) + " (pref=" + N(c.pref) + ")");
+        if (!releq(sm, em, 1e-11)) S.viol("musat", "closedform", "saturated mu " + gw(sm, em) + " at p=" + N(p) + " (pref=" + N(c.pref) + ")");
+    }
+}
+
+// ------------------------------------------------------ twin entry points --
+bool same(double a, double b) { return a == b || (std::isfinite(a) && std::isfinite(b) && std::fabs(a - b) <= 1e-13 * std::max(std::fabs(a), std::fabs(b))); }
+bool same3(const E3& a, const E3& b) { return same(a.value(), b.value()) && same(a.derivative(0), b.derivative(0)) && same(a.derivative(1), b.derivative(1)) && same(a.derivative(2), b.derivative(2)); }
+bool same2(const E2& a, const E2& b) { return same(a.value(), b.value()) && same(a.derivative(0), b.derivative(0)) && same(a.derivative(1), b.derivative(1)); }
+
+// Multiplexer vs. the concrete PVT class it dispatches to: every public evaluation entry point, double and
+// Evaluation arguments, returns the same number (1e-13).  With it every other oracle holds for both objects.
+template <class VA, class VB> void check_class_twin(Sink& S, const VA& a, const VB& b, const std::vector<std::pair<double, double>>& pts) {
+    for (auto [p, R] : pts) {
+        S.cnt("twin_class_points", 8);
+        if (!same(a.invB(TEMP, p, R), b.invB(TEMP, p, R))) S.viol("B", "twin:class", "multiplexer and concrete class disagree: " + gw(a.invB(TEMP, p, R), b.invB(TEMP, p, R)) + at(p, R));
+        if (!same(a.mu(TEMP, p, R), b.mu(TEMP, p, R))) S.viol("mu", "twin:class", "multiplexer and concrete class disagree: " + gw(a.mu(TEMP, p, R), b.mu(TEMP, p, R)) + at(p, R));
+        if (!same(a.satInvB(TEMP, p), b.satInvB(TEMP, p))) S.viol("Bsat", "twin:class", "multiplexer and concrete class disagree: " + gw(a.satInvB(TEMP, p), b.satInvB(TEMP, p)) + " at p=" + N(p));
+        if (!same(a.satMu(TEMP, p), b.satMu(TEMP, p))) S.viol("musat", "twin:class", "multiplexer and concrete class disagree: " + gw(a.satMu(TEMP, p), b.satMu(TEMP, p)) + " at p=" + N(p));
+        const E3 T3 = E3::createVariable(TEMP, 0), p3 = E3::createVariable(p, 1), R3 = E3::createVariable(R, 2);
+        const E2 T2 = E2::createVariable(TEMP, 0), p2 = E2::createVariable(p, 1);
+        if (!same3(a.invB(T3, p3, R3), b.invB(T3, p3, R3))) S.viol("B", "twin:class", "multiplexer and concrete class disagree for Evaluation arguments" + at(p, R));
+        if (!same3(a.mu(T3, p3, R3), b.mu(T3, p3, R3))) S.viol("mu", "twin:class", "multiplexer and concrete class disagree for Evaluation arguments" + at(p, R));
+        if (!same2(a.satInvB(T2, p2), b.satInvB(T2, p2))) S.viol("Bsat", "twin:class", "multiplexer and concrete class disagree for Evaluation arguments at p=" + N(p));
+        if (!same2(a.satMu(T2, p2), b.satMu(T2, p2))) S.viol("musat", "twin:class", "multiplexer and concrete class disagree for Evaluation arguments at p=" + N(p));
+    }
+}
+template <class VA, class VB> void check_class_twin_sat(Sink& S, const VA& a, const VB& b, const std::vector<std::pair<double, double>>& pts, const std::string& Rn) {
+    for (auto [p, R] : pts) {
+        S.cnt("twin_class_points", 2);
+        if (!same(a.satR(TEMP, p), b.satR(TEMP, p))) S.viol(Rn, "twin:class", "multiplexer and concrete class disagree: " + gw(a.satR(TEMP, p), b.satR(TEMP, p)) + " at p=" + N(p));
+        if (!(R > 0)) continue;
+        double x = 0, y = 0; bool tx = false, ty = false;
+        try { x = a.psat(TEMP, R); } catch (const std::exception&) { tx = true; }
+        try { y = b.psat(TEMP, R); } catch (const std::exception&) { ty = true; }
+        if (tx != ty || (!tx && !same(x, y))) S.viol("psat", "twin:class", "multiplexer and concrete class disagree on saturationPressure(" + N(R) + "): " + (tx ? "throws" : N(x)) + " vs " + (ty ? "throws" : N(y)));
+    }
+}
+std::vector<std::pair<double, double>> live_points(const LiveRef& L) {
+    std::vector<std::pair<double, double>> pts;
+    const size_t n = L.nodes.size();
+    for (auto& nd : L.nodes) for (auto& q : nd.pts) pts.push_back({q.p, q.R});
+    for (size_t i = 0; i + 1 < n; ++i) { const LPt &a = L.nodes[i].pts[0], &b = L.nodes[i + 1].pts[0]; pts.push_back({lerp(a.p, b.p, 0.5), lerp(a.R, b.R, 0.5)}); pts.push_back(L.oil ? std::make_pair(lerp(a.p, b.p, 1.3), lerp(a.R, b.R, 0.4)) : std::make_pair(lerp(a.p, b.p, 0.4), 0.6 * lerp(a.R, b.R, 0.4))); }
+    const LPt& z = L.nodes[n - 1].pts[0]; const LPt& f = L.nodes[0].pts[0];
+    pts.push_back({1.1 * z.p, 1.1 * z.R}); pts.push_back({0.9 * f.p, 0.9 * f.R});
+    return pts;
+}
+std::vector<std::pair<double, double>> dead_points(const DeadRef& D) {
+    std::vector<std::pair<double, double>> pts;
+    for (size_t i = 0; i < D.rows.size(); ++i) { pts.push_back({D.rows[i].p, 0.0}); if (i + 1 < D.rows.size()) pts.push_back({lerp(D.rows[i].p, D.rows[i + 1].p, 0.5), 7.5e-3}); }
+    pts.push_back({0.5 * D.rows[0].p, 0.0}); pts.push_back({1.5 * D.rows.back().p, 7.5e-3});
+    return pts;
+}
+// lattice of pressures for a constant-compressibility record: both sides of pref, and far beyond any usual range
+// (|C (p - pref)| up to ~2; 1 + X + X^2/2 has no real root, so every pressure is regular)
+std::vector<double> cc_pressures(const CCRef& c) {
+    std::vector<double> ps;
+    for (double f : {0.0, 0.1, 0.5, 0.9, 1.0, 1.1, 1.5, 2.0, 5.0, 20.0}) ps.push_back(c.pref * f);
+    const double cmax = std::max(std::fabs(c.C), std::fabs(c.Cv));
+    for (double x : {-2.0, -0.5, -0.05, 0.05, 0.5, 2.0}) { const double p = c.pref + x / cmax; if (p >= 0) ps.push_back(p); }
+    return ps;
+}
+std::vector<std::pair<double, double>> cc_points(const CCRef& c) { std::vector<std::pair<double, double>> pts; for (double p : cc_pressures(c)) pts.push_back({p, 0.01}); return pts; }
+// closed form of the record (ECLIPSE PVTW/PVCDO): B(p) = Bref/(1+X+X^2/2), X = C(p-pref); (B mu)(p) = Bref muref/(1+Y+Y^2/2), Y = (C-Cv)(p-pref)
+void cc_closed(const CCRef& c, double p, double& invB, double& mu) {
+    const double X = c.C * (p - c.pref), Y = (c.C - c.Cv) * (p - c.pref);
+    invB = (1.0 + X + 0.5 * X * X) / c.B;
+    mu = c.mu * (1.0 + X + 0.5 * X * X) / (1.0 + Y + 0.5 * Y * Y);
+}
+// the combined helper of the water class: both overloads agree with the separate entry points, double and Evaluation
+void check_BAndMu(Sink& S, const Opm::ConstantCompressibilityWaterPvt<double>& w, unsigned r, const CCRef& c) {
+    for (double p : cc_pressures(c)) {
+        S.cnt("twin_entry_points", 4);
+        double eb, em; cc_closed(c, p, eb, em);
+        double b1 = 0, m1 = 0, b2 = 0, m2 = 0;
+        w.inverseBAndMu(b1, m1, r, TEMP, p, 0.0, 0.0); w.inverseBAndMu(b2, m2, r, p);
+        const double b = w.inverseFormationVolumeFactor(r, TEMP, p, 0.0, 0.0), m = w.viscosity(r, TEMP, p, 0.0, 0.0);
+        if (!same(b1, b) || !same(b2, b)) S.viol("BAndMu", "twin", "inverseBAndMu 1/B " + N(b1) + " / " + N(b2) + " != inverseFormationVolumeFactor " + N(b) + " at p=" + N(p));
+        if (!same(m1, m) || !same(m2, m)) S.viol("BAndMu", "twin", "inverseBAndMu mu " + N(m1) + " / " + N(m2) + " != viscosity " + N(m) + " at p=" + N(p));
+        if (!releq(b1, eb, 1e-11) || !releq(m1, em, 1e-11)) S.viol("BAndMu", "closedform", "inverseBAndMu (1/B, mu) = (" + N(b1) + ", " + N(m1) + ") want (" + N(eb) + ", " + N(em) + ") at p=" + N(p));
+        const E3 T3 = E3::createVariable(TEMP, 0), p3 = E3::createVariable(p, 1), s3 = E3::createVariable(0.01, 2), z3 = E3(0.0);
+        E3 B1, M1, B2, M2; w.inverseBAndMu(B1, M1, r, T3, p3, z3, s3); w.inverseBAndMu(B2, M2, r, p3);
+        if (!same3(B1, w.inverseFormationVolumeFactor(r, T3, p3, z3, s3)) || !same3(B2, B1)) S.viol("BAndMu", "twin", "inverseBAndMu 1/B differs from inverseFormationVolumeFactor for Evaluation arguments (value or derivative) at p=" + N(p));
+        if (!same3(M1, w.viscosity(r, T3, p3, z3, s3)) || !same3(M2, M1)) S.viol("BAndMu", "twin", "inverseBAndMu mu differs from viscosity for Evaluation arguments (value or derivative) at p=" + N(p));
+    }
+    // AD derivative of the helper's outputs = slope of the returned function
+    for (double f : {0.5, 1.5, 3.0}) {
+        const double p = c.pref * f;
+        deriv3(S, "BAndMu", [&](auto T, auto x, auto y) { decltype(x) b, m; w.inverseBAndMu(b, m, r, T, x, decltype(x)(0.0), y); return b; }, p, 0.01, c.pref, 1.0);
+        deriv3(S, "BAndMu", [&](auto T, auto x, auto y) { decltype(x) b, m; w.inverseBAndMu(b, m, r, T, x, decltype(x)(0.0), y); return m; }, p, 0.01, c.pref, 1.0);
     }
 }
 
@@ -639,20 +754,50 @@ void run_case(const Case& c, vf::Run* R, std::set<std::string>* collect) {
             S.tab = c.oil.kw; S.dflt = c.oil.regs[r].dflt; S.src = int(r); while (S.src > 0 && c.oil.regs[S.src].dflt) --S.src;
             try {
                 OilView<Opm::OilPvtMultiplexer<double>> ov{oil, unsigned(r)};
-                if (c.oil.kw == "PVTO") check_live(S, ov, live_ref(true, resolve(c.oil, r), u), c.nt);
-                else if (c.oil.kw == "PVDO") check_dead(S, ov, dead_ref(true, resolve(c.oil, r), u), c.nt);
-                else check_cc(S, ov, cc_ref(true, resolve(c.oil, r), u));
+                if (c.oil.kw == "PVTO") {
+                    const LiveRef L = live_ref(true, resolve(c.oil, r), u);
+                    check_live(S, ov, L, c.nt);
+                    OilView<Opm::LiveOilPvt<double>> cv{oil.getRealPvt<Opm::OilPvtApproach::LiveOil>(), unsigned(r)};
+                    check_class_twin(S, ov, cv, live_points(L)); check_class_twin_sat(S, ov, cv, live_points(L), "Rs");
+                } else if (c.oil.kw == "PVDO") {
+                    const DeadRef D = dead_ref(true, resolve(c.oil, r), u);
+                    check_dead(S, ov, D, c.nt);
+                    OilView<Opm::DeadOilPvt<double>> cv{oil.getRealPvt<Opm::OilPvtApproach::DeadOil>(), unsigned(r)};
+                    check_class_twin(S, ov, cv, dead_points(D));
+                } else {
+                    const CCRef C = cc_ref(true, resolve(c.oil, r), u);
+                    check_cc(S, ov, C);
+                    OilView<Opm::ConstantCompressibilityOilPvt<double>> cv{oil.getRealPvt<Opm::OilPvtApproach::ConstantCompressibilityOil>(), unsigned(r)};
+                    check_class_twin(S, ov, cv, cc_points(C));
+                }
             } catch (const std::exception& e) { S.viol("any", "throws", std::string("evaluation threw: ") + e.what()); }
             S.tab = c.gas.kw; S.dflt = c.gas.regs[r].dflt; S.src = int(r); while (S.src > 0 && c.gas.regs[S.src].dflt) --S.src;
             try {
                 GasView<Opm::GasPvtMultiplexer<double>> gv{gas, unsigned(r)};
-                if (c.gas.kw == "PVTG") check_live(S, gv, live_ref(false, resolve(c.gas, r), u), c.nt);
-                else check_dead(S, gv, dead_ref(false, resolve(c.gas, r), u), c.nt);
+                if (c.gas.kw == "PVTG") {
+                    const LiveRef L = live_ref(false, resolve(c.gas, r), u);
+                    check_live(S, gv, L, c.nt);
+                    GasView<Opm::WetGasPvt<double>> cv{gas.getRealPvt<Opm::GasPvtApproach::WetGas>(), unsigned(r)};
+                    check_class_twin(S, gv, cv, live_points(L)); check_class_twin_sat(S, gv, cv, live_points(L), "Rv");
+                } else {
+                    const DeadRef D = dead_ref(false, resolve(c.gas, r), u);
+                    check_dead(S, gv, D, c.nt);
+                    GasView<Opm::DryGasPvt<double>> cv{gas.getRealPvt<Opm::GasPvtApproach::DryGas>(), unsigned(r)};
+                    check_class_twin(S, gv, cv, dead_points(D));
+                }
             } catch (const std::exception& e) { S.viol("any", "throws", std::string("evaluation threw: ") + e.what()); }
             S.tab = c.wat.kw; S.dflt = c.wat.regs[r].dflt; S.src = int(r); while (S.src > 0 && c.wat.regs[S.src].dflt) --S.src;
             try {
                 WatView<Opm::WaterPvtMultiplexer<double>> wv{wat, unsigned(r)};
-                check_cc(S, wv, cc_ref(false, resolve(c.wat, r), u));
+                const CCRef C = cc_ref(false, resolve(c.wat, r), u);
+                check_cc(S, wv, C);
+                if (wat.approach() != Opm::WaterPvtApproach::ConstantCompressibilityWater) S.viol("any", "twin:class", "a PVTW deck is not dispatched to ConstantCompressibilityWaterPvt");
+                else {
+                    const auto& cw = wat.getRealPvt<Opm::WaterPvtApproach::ConstantCompressibilityWater>();
+                    WatView<Opm::ConstantCompressibilityWaterPvt<double>> cv{cw, unsigned(r)};
+                    check_class_twin(S, wv, cv, cc_points(C));
+                    check_BAndMu(S, cw, unsigned(r), C);
+                }
             } catch (const std::exception& e) { S.viol("any", "throws", std::string("evaluation threw: ") + e.what()); }
         }
     } catch (const std::exception& e) {
@@ -711,13 +856,14 @@ int main(int argc, char** argv) {
         + (T ? "2-6" : "2-4") + " nodes, PVTW/PVCDO records; 1-2 PVT regions with all ordered pairs of distinct value sets and all shape pairs" + (T ? " (+ 3 regions: all ordered triples of distinct value sets x all 2-node shape triples)" : "")
         + "; region defaulting: NTPVT in {2,3,4} x every pattern {own table, defaulted '/'} over regions 2..NTPVT x all ordered selections of pairwise different value sets (A-D) for the own tables x rotated shapes, for PVTO, PVTG, PVDO, PVDG, PVTW (PVCDO records cannot be defaulted), a defaulted region judged by all oracles against the nearest preceding real table (keys end in :defaulted-region)"
         + "; x {METRIC,FIELD,LAB,PVT-M}; " + (T ? "3" : "2") + " fixed physically ordered value sets (PVTO/PVTG: + set D with very unevenly spaced saturated pressures and strongly concave Rs(p)/Rv(p), whose saturationPressure Newton iteration overshoots below 0 Pa); saturationPressure(Rsat(p)) = p on nodes and on the 16ths of every saturated interval; other interior points at " + (T ? "eighths" : "quarters")
-        + " of every segment; every deck through Parser->EclipseState->Schedule->*PvtMultiplexer::initFromState; oracles: node 1e-9, documented extension of single-point nodes 1e-9, bracket 1e-12, continuity (nodes 1e-12, between nodes 1e-9), saturationPressure inversion 1e-7, finite+continuous 10% beyond range, AD derivative vs central difference 1e-5 (h-sweep 1e-4..1e-7, kink-guarded); distinct = distinct (case, returned values) hashes";
+        + " of every segment; every deck through Parser->EclipseState->Schedule->*PvtMultiplexer::initFromState; oracles: node 1e-9, documented extension of single-point nodes 1e-9, bracket 1e-12, continuity (nodes 1e-12, between nodes 1e-9), twin entry points (saturated* == undersaturated entry point at every pressure for PVDO/PVDG/PVTW/PVCDO incl. beyond the range, inverseBAndMu helpers == separate entry points, multiplexer == concrete class for every entry point, double and Evaluation: 1e-13), closed form of PVTW/PVCDO records on a pressure lattice on both sides of pref up to |C dp| = 2 (1e-11), saturationPressure inversion 1e-7, finite+continuous 10% beyond range, AD derivative vs central difference 1e-5 (h-sweep 1e-4..1e-7, kink-guarded); distinct = distinct (case, returned values) hashes";
     run.assumptions = {
         "reference model = the table in deck numbers + own exact unit definitions (psi = lbf/in^2, stb = 42*231 in^3, Mscf = 1000 ft^3, atm = 101325 Pa), not Units.hpp",
         "bracket oracle only where the statement determines it: on the saturated curve and between *given* points of undersaturated lines at tabulated Rs (PVTO) / p (PVTG); the interior of 2D cells is only checked for continuity with the saturated curve, finiteness and derivative consistency",
         "lines of single-point nodes are not determined by the property text; they are compared (kind 'extension', separate keys) with the behaviour documented in extendPvtoTable_/extendPvtgTable_: the master line (next node with >= 2 points) at the same p/Rv offsets, scaled to the node's own saturated B and mu (same compressibility/viscosibility)",
         "saturationPressure tolerance 1e-7: Newton stops at |dp| < 2.2e-10 p on a piecewise-linear Rs(p)/Rv(p), a step inside the right segment lands on the root",
-        "PVTW/PVCDO: B and mu at the reference pressure, compressibility/viscosibility as relative slopes there (1e-6); no formula is assumed away from pref",
+        "PVTW/PVCDO: B and mu at the reference pressure, compressibility/viscosibility as relative slopes there (1e-6), and the documented closed form away from pref: B = Bref/(1+X+X^2/2), X = C(p-pref); B mu = Bref muref/(1+Y+Y^2/2), Y = (C-Cv)(p-pref); value sets A, C, D have non-zero, distinct C and Cv (B has Cv = 0)",
+        "twin entry points: for live tables saturated == undersaturated on the saturated curve is the continuity oracle (1e-12 at nodes, 1e-9 between nodes: different interpolation arithmetic); for dead and constant-compressibility fluids the two entry points must agree to 1e-13 everywhere",
         "region defaulting semantics (reference): an empty PVTO/PVTG table, an empty PVDO/PVDG record and an all-defaulted PVTW record mean 'the table of the nearest preceding region that has one'; DENSITY is always given explicitly; PVCDO does not accept defaulted records",
         "values outside the fixed value sets, non-monotone tables, defaulted single entries inside a table, VAPPARS and thermal/brine variants are not covered",
         "co2/h2 table traits are zero stubs (harness/C14_stubs.cpp): never read by table-based black-oil PVT"};
